@@ -137,12 +137,14 @@ Definition sanitizers_for_attr_value (c : context) : option (list bytes) :=
       else
         let sanitizer := sc_sanitizer_name sc0 in
         if negb (sc_is_url sc0) then Some (nonempty_names [sanitizer] ++ [N_sanitizeHTML])
+        else if c_attr_amb c then None
+             (* before the empty-prefix case (fix: refuse an action after an ambiguous URL prefix also
+                when the prefix is empty on the first branch) *)
         else
           match c_attr_value c with
           | [] => Some (nonempty_names [sanitizer; N_normalizeURL] ++ [N_sanitizeHTML])
           | prefix =>
-              if c_attr_amb c then None
-              else match url_prefix_validator sc0 with
+              match url_prefix_validator sc0 with
                    | None => None
                    | Some v =>
                        if negb (v prefix) then None
